@@ -83,8 +83,11 @@ def gen_plan(seed, tier):
         cmds = []
         for n in rng.sample(NAMES, rng.choice([1, 1, 2, 3, 4])):
             cmd = {"ref": n.decode()}
+            # "missing_same": several refs of one push are moved to one
+            # and the same object that the server lacks and the pack omits
             cmd["new"] = rng.choice(["commit", "commit", "commit", "delete",
-                                     "missing"]) if kind == "raw" else \
+                                     "missing", "missing_same",
+                                     "missing_same"]) if kind == "raw" else \
                 rng.choice(["commit", "commit", "commit", "delete"])
             cmd["old"] = rng.choice(["adv", "adv", "adv", "stale", "zero"]) \
                 if kind == "raw" else "adv"
@@ -308,6 +311,12 @@ def run_plan(plan):
                     # a commit the server does not have and the pack omits
                     new = res["newvals"][c["ref"]]
                     sim.stat("probe:missing_object_sent")
+                elif c["new"] == "missing_same":
+                    if "shared_missing" in res:
+                        sim.stat("probe:same_missing_object_twice")
+                    new = res.setdefault("shared_missing",
+                                         res["newvals"][c["ref"]])
+                    sim.stat("probe:missing_object_sent")
                 else:
                     new = res["newvals"][c["ref"]]
                 cmds.append((old, new, ref))
@@ -524,7 +533,7 @@ def run_plan(plan):
                         "detail": f"{r['status']}"})
         finally:
             fr.close()
-        nontrivial = any(c["old"] != "adv" or c["new"] == "missing"
+        nontrivial = any(c["old"] != "adv" or c["new"].startswith("missing")
                          for p in plan["pushers"] for c in p["cmds"]) or \
             bool(sim.stats.get("probe:two_pushers_overlap"))
     ih = util.h8([(e[1], e[2], e[3]) for e in sim.events])
